@@ -331,7 +331,7 @@ func stress(p, c, items, closeMode int, send func(int) bool, recv func() (int, b
 	go func() { cw.Wait(); close(done) }()
 	select {
 	case <-done:
-	case <-time.After(20 * time.Second):
+	case <-time.After(5 * time.Second):
 		return "TIMEOUT consumers did not terminate after Close"
 	}
 	var sb strings.Builder
